@@ -321,6 +321,31 @@ def gen_stitch(rng, tier):
         n = rng.choice(list(range(1, m + 1)))
         tag = 'roundtrip-n%d' % min(n, 3) + ('+empty' if any(len(p) == 0 for p in dfs) else '')
         yield dict(tag=tag, lines=[roundtrip_line(dfs, ub, n)])
+    # series holding NaN values: the statement does not exclude them; a stitched row that is NaN throughout is lost by
+    # df_unslice (nona) - known finding C13-N1, every other round trip with NaN values must still be exact
+    for _ in range(n_rt // 3):
+        m = rng.choice([2, 3, 3, 4])
+        dfs = [rand_series_days(rng, nan=rng.choice([0.1, 0.3])) for _ in range(m)]
+        ub = [day(b) for b in rand_bounds(rng, m, strict=True)]
+        n = rng.choice(list(range(1, m + 1)))
+        yield dict(tag='roundtrip-nan-n%d' % min(n, 3) + ('+all-nan-row' if has_all_nan_row(dfs, ub, n) else ''), lines=[roundtrip_line(dfs, ub, n)])
+    # bounds that repeat ("increasing" read strictly excludes them): df_unslice files two series under one bound and the
+    # re-stitch is refused (ValueError) - model and code must agree on that
+    for _ in range(n_rt // 10):
+        m = rng.choice([3, 3, 4])
+        dfs = [rand_series_days(rng, nan=0.0) for _ in range(m)]
+        bs = sorted(rng.sample(range(-1, 13), m - 1))
+        k = rng.randrange(m - 1)
+        ub = [day(b) for b in bs[:k + 1] + bs[k:]]
+        yield dict(tag='roundtrip-repeated-bound', lines=[roundtrip_line(dfs, ub, rng.choice([1, 2, m]))])
+
+
+def has_all_nan_row(dfs, ub, n):
+    """does the frame the statement prescribes hold a row that is NaN in every column?"""
+    if len(ub) != len(dfs) or any(a >= b for a, b in zip(ub, ub[1:])):
+        return False
+    _, rows = py_stitch(dfs, ub, n)
+    return any(all(v is None for v in vs) for _, vs in rows)
 
 
 PAST, FUTURE = D0, datetime.datetime(2090, 1, 1)
@@ -521,4 +546,24 @@ def laws(rng, tier, ctx):
     yield count
 
 
-MATCHERS = {}
+def _dec_pairs(sx):
+    out = []
+    for item in sx[1:]:
+        v = proto.dec(item[2])
+        out.append((proto.dec(item[1]), None if (v is None or v != v) else int(v)))
+    return out
+
+
+def roundtrip_all_nan_row(f):
+    """C13-N1: a round trip whose stitched frame holds a row that is NaN in every column (series with NaN values)"""
+    line = f.case['lines'][0]
+    if not line.startswith('(slice roundtrip '):
+        return False
+    sx = proto.parse(line)
+    dfs = [_dec_pairs(x) for x in sx[2][1:]]
+    if any(len(set(t for t, _ in p)) != len(p) or [t for t, _ in p] != sorted(t for t, _ in p) for p in dfs):
+        return False
+    return has_all_nan_row(dfs, dec_dates(sx[3]), int(sx[4][2:]))
+
+
+MATCHERS = {'roundtrip_all_nan_row': roundtrip_all_nan_row}
